@@ -142,14 +142,11 @@ class CountingBloomFilter(BloomFilter):
         # NOTE: this will increment indices each time it is viewed. Not sure if that is "correct"
         #       if not then we will need to update this and the C version
         indices = [hashes[i] % self._bloom_length for i in range(self._number_hashes)]
-        vals = [self._bloom[k] + num_els for k in indices]
-        for i, v in enumerate(vals):
-            k = indices[i]
-            if v > UINT32_T_MAX:
-                self._bloom[k] = UINT32_T_MAX
-                vals[i] = UINT32_T_MAX
-            else:
-                self._bloom[k] += num_els  # This keeps the original methodology
+        vals = []
+        for k in indices:
+            # clamp against the cell as it is now: the indices of one key may coincide
+            self._bloom[k] = min(self._bloom[k] + num_els, UINT32_T_MAX)  # This keeps the original methodology
+            vals.append(self._bloom[k])
         self.elements_added = min(self.elements_added + num_els, UINT64_T_MAX)
         return min(vals)
 
@@ -235,7 +232,7 @@ class CountingBloomFilter(BloomFilter):
         for i in range(self.bloom_length):
             if self._bloom[i] > 0 and second._bloom[i] > 0:
                 tmp = self._bloom[i] + second._bloom[i]
-                res.bloom[i] = tmp
+                res.bloom[i] = min(tmp, UINT32_T_MAX)
         res.elements_added = res.estimate_elements()
         return res
 
@@ -296,7 +293,7 @@ class CountingBloomFilter(BloomFilter):
         )
         for i in range(self.bloom_length):
             tmp = self._bloom[i] + second._bloom[i]
-            res._bloom[i] = tmp
+            res._bloom[i] = min(tmp, UINT32_T_MAX)
         res.elements_added = res.estimate_elements()
         return res
 
